@@ -162,6 +162,8 @@ pub fn mamba_to_python(
         .map(|(src, dir)| (src.clone(), dir.clone().map(strip_prefix)))
         .collect();
 
+    #[cfg(feature = "verif")]
+    verif_hooks::set_stage(1);
     let (asts, parse_errs): (Vec<_>, Vec<_>) = source
         .iter()
         .map(|(src, path)| {
@@ -178,8 +180,12 @@ pub fn mamba_to_python(
     let asts: Vec<AST> = asts.into_iter().map(Result::unwrap).collect();
     trace!("Parsed {} files", asts.len());
 
+    #[cfg(feature = "verif")]
+    verif_hooks::set_stage(2);
     let ctx = Context::try_from(asts.as_ref())
         .map_err(|errs| errs.iter().map(|e| format!("{e}")).collect::<Vec<String>>())?;
+    #[cfg(feature = "verif")]
+    verif_hooks::set_stage(3);
     let (typed_ast, type_errs): (Vec<_>, Vec<_>) = asts
         .iter()
         .zip(&source)
@@ -207,6 +213,8 @@ pub fn mamba_to_python(
 
     trace!("Checked {} files", typed_ast.len());
 
+    #[cfg(feature = "verif")]
+    verif_hooks::set_stage(4);
     let gen_args = GenArguments::from(pipeline_args);
     let (py_sources, gen_errs): (Vec<_>, Vec<_>) = typed_ast
         .iter()
@@ -223,6 +231,8 @@ pub fn mamba_to_python(
         return Err(gen_errs.iter().map(|err| format!("{err}")).collect());
     }
 
+    #[cfg(feature = "verif")]
+    verif_hooks::set_stage(5);
     let py_sources: Vec<String> = py_sources.into_iter().map(Result::unwrap).collect();
     trace!("Converted {} files to Python source", py_sources.len());
 
